@@ -166,6 +166,8 @@ def cases(tier: str, seed: int) -> list[dict]:
     vias = ["memory", "file", "memory", "dask", "memory", "emsopen", "memory"]      # how the dataset is held (viafile.hold)
     for k, c in enumerate(out):
         c["world"] = dict(c["world"], via=vias[k % len(vias)])
+        if c["world"]["conv"] in ("cf1d", "cf2d") and k % 2 == 0 and c["world"]["via"] != "emsopen":
+            c["world"]["bind"] = "explicit"      # convention made by hand with latitude= / longitude= (worlds.bind)
     return out
 
 
